@@ -26,12 +26,16 @@ RULE = (
     "Hypothesis draws a parameter dimension d in 1..4, a box (low in [-4,4], width in [1,8] per axis, plain "
     "floats or dyadic values), 2..6 nodes per axis (2..4 for d=4), a coefficient tensor with all 2^d monomials "
     "(multilinear) or only the 1+d monomials of degree <= 1 (linear), a pool of 1..8 query points whose coordinates "
-    "are grid nodes (incl. the lower and the upper face of the box) or lie inside a cell, and 1..3 query batches "
-    "that index the pool with repeats. Oracle: f evaluated directly from its coefficients (tolerance 1e-10 x "
+    "are grid nodes (incl. the lower and the upper face of the box) or lie inside a cell, 1..3 query batches "
+    "that index the pool with repeats, and the base point of the adaptive table: lower corner, another node of the "
+    "grid (interior / upper corner), a grid-aligned point up to 3 cells outside the box, an arbitrary unaligned point "
+    "inside or outside the box, or the constructor's default (origin) - so that queries lie below, above and on both "
+    "sides of the base point. Oracle: f evaluated directly from its coefficients (tolerance 1e-10 x "
     "sum_m |c_m| prod max|x_i|); gradient(axis) of a linear f equals the coefficient of that axis (1e-10 x scale / h); "
-    "an AdaptiveInterpolationTable with the same resolution anchored at low, queried batch by batch, equals the "
-    "standard table (values, and gradients along every axis). Non-trivial = d >= 2 or >= 3 distinct points, f "
-    "not constant; distinct = hash of spec."
+    "the AdaptiveInterpolationTable with the same resolution, queried batch by batch, equals the standard table "
+    "(values, and gradients along every axis); any exception raised by either table for a point of the box "
+    "(including the tables' internal AssertionErrors) is a violation. Non-trivial = d >= 2 or >= 3 distinct "
+    "points, f not constant; distinct = hash of spec."
 )
 BUDGET = {"quick": {"cases": 2400, "seconds": 40}, "thorough": {"cases": 80000, "seconds": 1100}}
 TECHNIQUE = "property-based testing (Hypothesis): analytic oracle (multilinear functions) and differential standard vs adaptive table"
@@ -47,7 +51,7 @@ DESIGN_REF = "DESIGN.md section 4, C41"
 ASSUMPTIONS = [
     "box coordinates are moderate (|x| <= 12, grid spacing >= 0.2) so that the cell search by floor division is well conditioned",
     "scalar-valued function (dim = 1); query points passed as a 2-d array (parameter dimension x number of points)",
-    "the adaptive table is given the function, the resolution (high-low)/(npt-1) and base_point = low, as in the repository's tests",
+    "the adaptive table is given the function and the resolution (high-low)/(npt-1); its base point is any point of parameter space (the docstring only says 'a point in the underlying grid') or the default None",
 ]
 REQUIRED = {
     "kind-values": 0.25, "kind-gradient": 0.25, "f-linear": 0.2, "f-multilinear": 0.2,
@@ -55,7 +59,7 @@ REQUIRED = {
     "pt-upper-face": 0.2, "pt-lower-face": 0.2, "pt-node": 0.2, "pt-interior": 0.3,
     "multi-batch": 0.3, "repeat-query": 0.15, "box-float": 0.25, "box-dyadic": 0.25,
     "adaptive-base-low": 0.07, "adaptive-base-interior": 0.08, "adaptive-base-upper": 0.07, "adaptive-base-shift": 0.07,
-    "adaptive-base-free": 0.07, "adaptive-base-default": 0.02, "adaptive-query-below-base": 0.25,
+    "adaptive-base-free": 0.07, "adaptive-base-default": 0.003, "adaptive-query-below-base": 0.25,
     "adaptive-query-both-sides": 0.15,
 }
 
@@ -118,7 +122,8 @@ def _spec(draw):
     # base point of the adaptive table: the lower corner (as InterpolatedFunction does), another node of the
     # standard grid (interior / upper corner), a grid-aligned point outside the box, an arbitrary (unaligned)
     # point inside or outside the box, or the documented default (None -> origin)
-    amode = draw(st.sampled_from(["low", "node", "node", "upper", "shift", "free", "default"]))
+    amode = draw(st.sampled_from(["low", "low", "node", "node", "node", "upper", "upper", "shift", "shift", "free", "free",
+                                   "default"]))
     abase = {"mode": amode,
              "k": [draw(st.integers(0, npt[i] - 1)) if amode == "node" else draw(st.integers(-3, npt[i] + 2))
                    for i in range(d)],
